@@ -10,7 +10,7 @@ From MW Require Import Model.Base Model.F64 Model.Num Model.Datum Model.Transfor
   Model.VmTypes Model.Heap Model.Gc Model.VmBase Model.Compile Model.Vm
   Proofs.VmProofs0 Proofs.GcProofs Proofs.SymtabProofs Proofs.QuoteHeapProofs
   Proofs.CompileProofs Proofs.RunProofs Proofs.CompileCorrect Proofs.TailProofs Proofs.FrameSteps
-  Proofs.CellFuelProofs Proofs.CompileCorrect2 Proofs.FrameSteps3 Proofs.Closures6.
+  Proofs.CellFuelProofs Proofs.CompileCorrect2 Proofs.FrameSteps3 Proofs.FrameSteps5 Proofs.Closures6.
 From MW Require Proofs.ScopeProofs.
 Open Scope N_scope.
 
@@ -202,10 +202,20 @@ Proof.
 Qed.
 Lemma cs6_set sc x e : wf6 (WSet x e) sc -> compile_static6 sc e -> compile_static6 sc (WSet x e).
 Proof.
-  intros (Hx & Hp & _). apply (cs6_store sc (WSet x e) x e).
-  - intros. apply compile_set_eq. exact Hx.
-  - cbn [cell_of6 cell_size]. lia.
-  - exact Hp.
+  intros (Hx & _) IH. destruct (pindex x sc) as [i|] eqn:Hp.
+  - (* x is bound by the environment map: MOV %acc (lexical slot i) *)
+    intros f l tail s Hf Hh MI. destruct f as [|f]; [lia|].
+    cbn [cell_of6 cell_size] in Hf.
+    destruct (IH f l false s ltac:(lia) Hh MI) as (l1 & s1 & code & E1 & F1 & S1 & MI1 & X1 & R1 & En1).
+    destruct (compile_set_local sc x i (cell_of6 e) f l tail s l1 s1 code Hx Hp Hh E1 F1 S1 MI1 X1)
+      as (l2 & s2 & E2 & F2 & S2 & MI2 & X2 & R2 & St2 & _).
+    exists l2, s2, (code ++ [VOp OMov; VAcc; VLexSlot i; VOp OMovImmediate; VVoid; VAcc]).
+    split; [exact E2|]. split; [exact F2|]. split; [exact S2|]. split; [exact MI2|].
+    split; [eapply cext_trans; eassumption|]. split; [eapply same_regs_trans; eassumption|].
+    rewrite St2. exact En1.
+  - apply (cs6_store sc (WSet x e) x e); [| | exact Hp|exact IH].
+    + intros. apply compile_set_eq. exact Hx.
+    + cbn [cell_of6 cell_size]. lia.
 Qed.
 
 (* ============================================================ if *)
